@@ -83,10 +83,27 @@ func (k c05OutCase) key() string {
 	if k.Wrapped {
 		w = "/wrapped"
 	}
-	return fmt.Sprintf("out/%s/h%d/t%d/resp%v/err%d.%d.%d/req%v/proxied=%v%s", k.Cfg, k.NHdr, k.NTrl, k.Sizes, k.ErrCode, k.ErrMsg, k.Details, k.ReqSizes, k.Proxied, w)
+	return fmt.Sprintf("out/%s/h%d/t%d/resp%s/err%d.%d.%d/req%s/proxied=%v%s", k.Cfg, k.NHdr, k.NTrl, sizesKey(k.Sizes), k.ErrCode, k.ErrMsg, k.Details, sizesKey(k.ReqSizes), k.Proxied, w)
 }
 
-var c05Msgs = []string{"", "plain", "näh 100% \r\n ☃", strings.Repeat("x", 300)}
+func sizesKey(s []int) string {
+	if len(s) > 20 {
+		return fmt.Sprintf("[%d..%d (%d sizes)]", s[0], s[len(s)-1], len(s))
+	}
+	return fmt.Sprint(s)
+}
+
+var c05Msgs = []string{"", "plain", "näh 100% \r\n ☃", strings.Repeat("x", 300), "edge \x7f~ \x1f\x20!"}
+
+// c05SizeSweep: every encodable message size up to 600 bytes (sizes straddling
+// whatever small fixed-size scratch space an encoder might use).
+func c05SizeSweep() []int {
+	out := []int{0}
+	for n := 2; n <= 600; n++ {
+		out = append(out, n)
+	}
+	return out
+}
 
 func c05Detail(i int) proto.Message {
 	if i == 0 {
@@ -704,6 +721,13 @@ func c05OutCases(thorough bool) []c05OutCase {
 				sizes := []int{20}
 				out = append(out, c05OutCase{Cfg: cfg, NHdr: 1, NTrl: 1, Sizes: sizes, ErrCode: code, ErrMsg: 1, Details: 1, ReqSizes: []int{15}})
 			}
+		}
+	}
+	// one stream with a message of every size, uncompressed, in each direction
+	for _, p := range AllProtos {
+		for _, js := range []bool{false, true} {
+			out = append(out, c05OutCase{Cfg: Cfg{Proto: p, JSON: js, Comp: CompNone, Kind: KServer, HTTP: 2}, Sizes: c05SizeSweep(), ReqSizes: []int{15}})
+			out = append(out, c05OutCase{Cfg: Cfg{Proto: p, JSON: js, Comp: CompNone, Kind: KClient, HTTP: 2}, Sizes: []int{20}, ReqSizes: c05SizeSweep()})
 		}
 	}
 	for _, p := range AllProtos {
